@@ -1,5 +1,8 @@
+import AnsiProofs.Lemmas.RenderStrip
 import AnsiProofs.Props.C02
 import AnsiProofs.Props.C18
+import AnsiProofs.Props.C06
+import AnsiProofs.Props.C07
 /-
   AnsiProofs.Lemmas.ParseStyle — helper lemmas for the STYLE half of property C02
   (`set_ansi_str`: each character reports the effective style a conforming terminal gives it).
@@ -182,8 +185,13 @@ def dtexts (d : PyDict) : List Str := d.map (fun kv => kv.2.txt)
 theorem mem_dtexts {d : PyDict} {t : Str} : t ∈ dtexts d ↔ ∃ kv ∈ d, kv.2.txt = t := by
   simp [dtexts]
 
+/- `rfl`-unfoldings (so that no `PyDict.*.eq_1` auxiliary is generated in this module) -/
+theorem get?_def (d : PyDict) (k : Nat) :
+    d.get? k = (d.find? (fun kv => kv.1 == k)).map (·.2) := rfl
+theorem contains_def (d : PyDict) (k : Nat) : d.contains k = d.any (fun kv => kv.1 == k) := rfl
+
 theorem get_eq_some_mem {d : PyDict} {k : Nat} {v : Setting} (h : d.get? k = some v) : (k, v) ∈ d := by
-  unfold PyDict.get? at h
+  rw [get?_def] at h
   rw [Option.map_eq_some_iff] at h
   obtain ⟨kv, hf, rfl⟩ := h
   have h1 := List.find?_some hf
@@ -198,23 +206,23 @@ theorem get_of_mem {d : PyDict} (hp : d.Pairwise (fun a b => a.1 ≠ b.1)) {k : 
   | cons x rest ih =>
     rw [List.pairwise_cons] at hp
     rcases List.mem_cons.1 h with rfl | h
-    · simp [PyDict.get?]
+    · rw [get?_def]; simp
     · have hx : ¬ ((x.1 == k) = true) := by simpa using hp.1 _ h
       have := ih hp.2 h
-      unfold PyDict.get? at this ⊢
+      rw [get?_def] at this ⊢
       have e : List.find? (fun kv : Nat × Setting => kv.1 == k) (x :: rest) =
           List.find? (fun kv : Nat × Setting => kv.1 == k) rest := List.find?_cons_of_neg hx
       rw [e]
       exact this
 
 theorem get_eq_none {d : PyDict} {k : Nat} (h : d.get? k = none) : ∀ kv ∈ d, kv.1 ≠ k := by
-  unfold PyDict.get? at h
+  rw [get?_def] at h
   rw [Option.map_eq_none_iff, List.find?_eq_none] at h
   intro kv hkv
   simpa using h kv hkv
 
 theorem contains_iff {d : PyDict} {k : Nat} : d.contains k = true ↔ ∃ kv ∈ d, kv.1 = k := by
-  simp [PyDict.contains]
+  rw [contains_def]; simp
 
 theorem pair_unique {d : PyDict} (hp : d.Pairwise (fun a b => a.1 ≠ b.1)) {a b : Nat × Setting}
     (ha : a ∈ d) (hb : b ∈ d) (h : a.1 = b.1) : a = b := by
